@@ -356,6 +356,7 @@ func c07WriteFaults(c *Ctx) {
 					k.Failf("write-vs-marshal", "%s: Write produced %d bytes, MarshalText %d", w.kind, len(ok.buf), len(want))
 				}
 				k.Count("write_ok_runs", 1)
+				writerZoo(k, []func(io.Writer) error{w.write}, want)
 				L := len(want)
 				for kk := 0; kk < L; kk++ {
 					lw := &limitWriter{k: kk}
@@ -366,6 +367,21 @@ func c07WriteFaults(c *Ctx) {
 						k.Input("writer_accepts_bytes", kk)
 						k.Failf("write-error-swallowed", "%s.Write returned nil although the writer failed after %d of %d bytes", w.kind, kk, L)
 						return
+					}
+					// the same fault through destinations that have more methods than Write
+					for dk := 1; dk <= 3; dk++ {
+						if !(kk%3 == dk%3 || kk >= L-2 || kk < 2) {
+							continue
+						}
+						lw2 := &limitWriter{k: kk}
+						dst, dname := faultDest(dk, lw2)
+						if err := w.write(dst); err == nil && (lw2.failed > 0 || len(lw2.buf) < L) {
+							k.Input("writer_accepts_bytes", kk)
+							k.Input("destination", dname)
+							k.Failf("write-error-swallowed", "%s.Write to %s returned nil although the destination failed after %d of %d bytes (%d of its calls returned an error, %d bytes arrived)", w.kind, dname, kk, L, lw2.failed, len(lw2.buf))
+							return
+						}
+						k.Count("write_fault_runs_other_destinations", 1)
 					}
 					if !bytes.Equal(lw.buf, want[:len(lw.buf)]) {
 						k.Input("writer_accepts_bytes", kk)
@@ -460,6 +476,7 @@ func c07WriteFaultsLarge(c *Ctx) {
 					k.Failf("write-vs-marshal", "%s: Write produced %d bytes, MarshalText %d", w.kind, len(ok.buf), len(want))
 				}
 				k.Count("write_ok_runs", 1)
+				writerZoo(k, []func(io.Writer) error{w.write}, want)
 				L := len(want)
 				k.Input("output_len", L)
 				for kk := 0; kk < L; kk++ {
@@ -476,6 +493,17 @@ func c07WriteFaultsLarge(c *Ctx) {
 						k.Input("writer_accepts_bytes", kk)
 						k.Failf("write-error-swallowed", "%s.Write returned nil although the writer failed after %d of %d bytes", w.kind, kk, L)
 						return
+					}
+					if kk >= L-100 || kk%7 == 0 {
+						lw2 := &limitWriter{k: kk}
+						dst, dname := faultDest(1+kk%3, lw2)
+						if err := w.write(dst); err == nil && (lw2.failed > 0 || len(lw2.buf) < L) {
+							k.Input("writer_accepts_bytes", kk)
+							k.Input("destination", dname)
+							k.Failf("write-error-swallowed", "%s.Write to %s returned nil although the destination failed after %d of %d bytes", w.kind, dname, kk, L)
+							return
+						}
+						k.Count("write_fault_runs_other_destinations", 1)
 					}
 					if kk%97 == 0 || kk == L-1 {
 						after := &limitWriter{k: -1}
